@@ -42,7 +42,7 @@ EnsN(reps)   == FoldSeq(LAMBDA c, acc : acc + Len(c.idl), 0, reps)
 \* fluctuations / presence mask of a replica laid out on the grid of spacing g (zero where not measured)
 Expand(rep, g) ==
   LET n == GridLen(rep.idl, g)
-      pos == TLCEval([k \in 1..n |-> IndexOf(rep.idl, rep.idl[1] + (k - 1) * g)])
+      pos == Positions(rep.idl, [k \in 1..n |-> rep.idl[1] + (k - 1) * g])
   IN [x |-> TLCEval([k \in 1..n |-> IF pos[k] = 0 THEN "0" ELSE rep.d[pos[k]]]),
       m |-> TLCEval([k \in 1..n |-> IF pos[k] = 0 THEN "0" ELSE "1"])]
 
